@@ -558,6 +558,9 @@ pub fn run_case(g: &SG, wd: &Workdir, rep: &mut Rep, maxlen: usize, only_input: 
         if msg.contains("Expected ") && msg.contains("Syntax error") {
             // the generator only writes documented syntax: a syntax error means the text the user wrote is not the text analysed
             rep.violation("C09", &sig("syntax"), &format!("syntactically valid grammar text is rejected with a syntax error: {}", msg.replace(&wd.dir.to_string_lossy().to_string(), "").chars().take(400).collect::<String>()), case0(json!(null)));
+        } else if msg.contains("Unexisting symbol") {
+            // every symbol the generator references is a rule or terminal of the same text
+            rep.violation("C09", &sig("unexisting"), &format!("a grammar that defines every symbol it uses is rejected for a reference the user did not write: {}", msg.replace(&wd.dir.to_string_lossy().to_string(), "").chars().take(400).collect::<String>()), case0(json!(null)));
         } else if c.outcome.is_panic() {
             rep.count("compiler_panics_not_judged_here", 1);
         } else {
